@@ -4,10 +4,3 @@ NOTES = ("Technique family: machine-checked proof in Lean 4. Every claimed prope
          "See DESIGN.md; known-findings.txt lists fixed defects and recorded findings.")
 _PENDING = "framework for this property not built yet in this session (planned in DESIGN.md §5); no claim is made"
 NOT_APPLICABLE = {f"C{i:02d}": _PENDING for i in range(1, 21)}
-META = {
- "C13": dict(
-   text="Proof: for every text and pattern over any alphabet the two-pointer matcher model equals the declarative LIKE relation, "
-        "and the operator rewriting of convertLikeToFunction decides the same relation; IS [NOT] NULL paths agree (Lean theorems, no bound). "
-        "The three Go matchers, the rewriting and the SQL positions WHERE/CASE/HAVING are tied to the model by differential correspondence on generated (text, pattern) pairs.",
-   note="Trusted: Lean kernel; hand-written model (tied by correspondence, not verified); expr-lang string operators = Go strings functions; harness/hook code. LIKE over NULL text and patterns containing quotes/backslashes are outside the quantifier."),
-}
